@@ -44,11 +44,13 @@ Definition norm_index (n z : Z) : Z := if z <? 0 then z + n else z.
 Definition index_ok (n z : Z) : bool := (- n <=? z) && (z <? n).
 
 (* the mask produced by  m = zeros(n, bool); m[ix] = True ; m   (None = numpy raises);
-   for a boolean mask: the mask itself, which must have length n to be ANDed in place *)
+   for a boolean mask: the mask itself, which must have length n to be ANDed in place, or length 1
+   (numpy broadcasts a one-element operand of `&=`) *)
 Definition index_mask (n : nat) (ix : idx) : option (list bool) :=
   let nz := Z.of_nat n in
   match ix with
-  | IxMask m => if Nat.eqb (List.length m) n then Some m else None
+  | IxMask m => if Nat.eqb (List.length m) n then Some m
+                else match m with [b] => Some (repeat b n) | _ => None end
   | IxInt z => if index_ok nz z then Some (map (fun p => p =? norm_index nz z) (zpos n)) else None
   | IxSlice a b c =>
       match slice_adjust nz a b c with
